@@ -1,5 +1,238 @@
-From MxlGen Require Import SymRepr GenMxlGenFacts.
-Theorem C11_facts_pinned :
-  gen_mxlgen_facts = mkGenFacts KsInit KsInit KsPlain KsPlain KsRxnStoich true true.
+(** C11 -- Model -> generated MxlPy source -> model preserves behaviour, or generation fails.
+
+    ONLY theorem statements (written out in full), each closed by [exact <lemma>] and followed by
+    [Print Assumptions].  The executable model: SymRepr.v ([generate_from_symrepr]: the [functions]
+    dict, its keys, [register]), MxlGen.v ([to_symbolic_repr], [generate], [exec_code], [fsem_gen],
+    [roundtrip]); the behaviour of a model is Core's [create_cache] / [get_args] / [get_fluxes] /
+    [get_rhs] (the models of C01/C13).
+
+    The way the generator stores a definition under its key is a REGENERATED fact
+    ([gf_register gen_mxlgen_facts], pinned by [C11_facts_pinned] to ExpectedFacts.v):
+      RegFresh      (fixes/C11-function-name-collisions.diff applied)  ->  C11_roundtrip, the full statement
+      RegOverwrite  (the snapshot)  ->  C11_roundtrip_partial under its guards, and the three
+                    [_refuted] theorems (recorded findings) show that the guards are needed.
+    Both theorems are stated for EVERY fact record with that way of storing (any key scheme).
+
+    External parts enter as quantified functions with hypotheses:
+      translate / eval / fsem   fn_to_sympy + SymPy's printer + CPython: C06 soundness is the hypothesis
+                                [eval (translate f margs) en = fsem f (values of margs in en)]
+      same_fn                   SymPy's structural comparison of two positional functions
+                                ([_positional_fn(..) == _positional_fn(..)]): equal => same function. *)
+From Coq Require Import ZArith List Bool String.
+From MxlBase Require Import ListX.
+From Core Require Import Sort GenSortFacts Model Cache Query.
+From MxlGen Require Import SymRepr GenMxlGenFacts ExpectedFacts MxlGen MxlGenSpec MxlGenSem MxlGenProofs
+                           Corr CorrProofs MxlGenWitness.
+Import ListNotations.
+Local Open Scope string_scope.
+Local Open Scope N_scope.
+
+Theorem C11_facts_pinned : gen_mxlgen_facts = C11_facts C11_expected_register.
 Proof. vm_compute. reflexivity. Qed.
 Print Assumptions C11_facts_pinned.
+
+(** FULL STATEMENT (repaired generator: a definition whose key is taken by a different positional
+    function gets a fresh name; emitted parameters are pairwise different).
+    For EVERY model of variables, parameters, derived quantities and reactions (ids pairwise
+    different, none is "time"), EVERY assignment of function objects to its slots -- one function
+    under several argument lists, different functions with one __name__, names that look like
+    generated keys, repeated arguments -- : if generation succeeds, executing the generated source
+    rebuilds a model [m'] with the same component names in the same kinds and order, and -- under
+    the meaning of the emitted defs -- the same outcome of cache construction: same initial
+    conditions (initial assignments resolved), same parameter values (assignment-defined and
+    derived parameters included) and, at EVERY state and time, the same arguments (derived values
+    included), fluxes and derivatives; an error of the source model is the same error. *)
+Theorem C11_roundtrip :
+  forall (E : Type) (nstr : name -> string) (fname : fnid -> string)
+         (translate : fnid -> list name -> option E) (eval : E -> env -> option Z)
+         (same_fn : E * list name -> E * list name -> bool)
+         (fsem : fnid -> list Z -> option Z) (fsemN : fnid -> list Z -> option (list Z)) (SF : sort_facts),
+    (forall f margs e, translate f margs = Some e ->
+       forall en vs, lookups margs en = Some vs -> eval e en = fsem f vs) ->
+    (forall q p, same_fn q p = true ->
+       forall vs, defsem E eval (fst q) (snd q) vs = defsem E eval (fst p) (snd p) vs) ->
+    forall (F : gen_facts) (m : model) (c : code E),
+      gf_register F = RegFresh ->
+      UniqueIds m -> m_sur m = [] -> m_dat m = [] ->
+      generate E nstr fname translate same_fn F m = Some c ->
+      exists m', exec_code E c = Built m'
+        /\ keys (m_var m') = keys (m_var m) /\ keys (m_par m') = keys (m_par m)
+        /\ keys (m_der m') = keys (m_der m) /\ keys (m_rxn m') = keys (m_rxn m)
+        /\ match create_cache fsem fsemN SF m, create_cache (fsem_gen E eval (c_defs c)) fsemN SF m' with
+           | Val ch, Val ch' =>
+             c_init ch' = c_init ch /\ c_base_par ch' = c_base_par ch /\ c_all_par ch' = c_all_par ch
+             /\ forall vars t,
+                  get_args (fsem_gen E eval (c_defs c)) fsemN m' ch' vars t = get_args fsem fsemN m ch vars t
+                  /\ get_fluxes (fsem_gen E eval (c_defs c)) fsemN m' ch' vars t = get_fluxes fsem fsemN m ch vars t
+                  /\ get_rhs (fsem_gen E eval (c_defs c)) fsemN m' ch' vars t = get_rhs fsem fsemN m ch vars t
+           | Err e, Err e' => e' = e
+           | _, _ => False
+           end.
+Proof. exact roundtrip_full. Qed.
+Print Assumptions C11_roundtrip.
+
+(** the search for a fresh name ([while name in functions and ...: name = f"{fn_name}_{i}"]) always
+    ends within len(functions) + 1 candidates: the fuel of the model is never exhausted *)
+Theorem C11_fresh_name_found :
+  forall (E : Type) (same_fn : E * list name -> E * list name -> bool)
+         (fn_name : string) (p : E * list name) (functions : fdict E),
+    find_name E same_fn (S (length functions)) fn_name 0 p functions <> None.
+Proof. exact find_name_total. Qed.
+Print Assumptions C11_fresh_name_found.
+
+(** PARTIAL (the snapshot's generator: [functions[key] = (expr, args)], the last writer of a key wins).
+    The same conclusion under three guards:
+      ArgsDupFree             no slot passes the same model name twice;
+      NameDeterminesFunction  slots whose definitions are stored under the same key hold
+                              extensionally equal functions (so: one function under any number of
+                              argument lists, and same-named functions with equal meaning, are fine);
+      (arity)                 the translation checks the number of arguments and a call with a wrong
+                              number of arguments fails.
+    Missing w.r.t. the full statement: exactly the models outside the guards -- see the three
+    [_refuted] theorems below (recorded findings). *)
+Theorem C11_roundtrip_partial :
+  forall (E : Type) (nstr : name -> string) (fname : fnid -> string)
+         (translate : fnid -> list name -> option E) (eval : E -> env -> option Z)
+         (same_fn : E * list name -> E * list name -> bool)
+         (fsem : fnid -> list Z -> option Z) (arity : fnid -> nat)
+         (fsemN : fnid -> list Z -> option (list Z)) (SF : sort_facts),
+    (forall f margs e, translate f margs = Some e ->
+       forall en vs, lookups margs en = Some vs -> eval e en = fsem f vs) ->
+    (forall f margs e, translate f margs = Some e -> length margs = arity f) ->
+    (forall f vs, length vs <> arity f -> fsem f vs = None) ->
+    forall (F : gen_facts) (m : model) (c : code E),
+      gf_register F = RegOverwrite ->
+      UniqueIds m -> m_sur m = [] -> m_dat m = [] ->
+      (forall s, In s (slots nstr fname F m) -> NoDup (sl_args s)) ->
+      (forall s1 s2, In s1 (slots nstr fname F m) -> In s2 (slots nstr fname F m) ->
+                     sl_key s1 = sl_key s2 -> forall vs, fsem (sl_fn s1) vs = fsem (sl_fn s2) vs) ->
+      generate E nstr fname translate same_fn F m = Some c ->
+      exists m', exec_code E c = Built m'
+        /\ keys (m_var m') = keys (m_var m) /\ keys (m_par m') = keys (m_par m)
+        /\ keys (m_der m') = keys (m_der m) /\ keys (m_rxn m') = keys (m_rxn m)
+        /\ match create_cache fsem fsemN SF m, create_cache (fsem_gen E eval (c_defs c)) fsemN SF m' with
+           | Val ch, Val ch' =>
+             c_init ch' = c_init ch /\ c_base_par ch' = c_base_par ch /\ c_all_par ch' = c_all_par ch
+             /\ forall vars t,
+                  get_args (fsem_gen E eval (c_defs c)) fsemN m' ch' vars t = get_args fsem fsemN m ch vars t
+                  /\ get_fluxes (fsem_gen E eval (c_defs c)) fsemN m' ch' vars t = get_fluxes fsem fsemN m ch vars t
+                  /\ get_rhs (fsem_gen E eval (c_defs c)) fsemN m' ch' vars t = get_rhs fsem fsemN m ch vars t
+           | Err e, Err e' => e' = e
+           | _, _ => False
+           end.
+Proof. exact roundtrip_guarded. Qed.
+Print Assumptions C11_roundtrip_partial.
+
+(** REFUTED for the snapshot's generator without NameDeterminesFunction (finding C11-same-name-collapse):
+    v1 = moda.rate(x, k1) = x*k1, v2 = modb.rate(x, k2) = x+k2.  The round trip succeeds, the
+    generated file has ONE def [rate]; source fluxes (6, 7) and dx/dt = 1, rebuilt (5, 7) and 2. *)
+Theorem C11_same_name_refuted :
+  exists (t : ftab) (m m' : model) (D : fdict cexpr) (ch ch' : cache),
+    UniqueIds m
+    /\ (forall s, In s (slots nstr (c_fname t) (C11_facts RegOverwrite) m) -> NoDup (sl_args s))
+    /\ roundtrip cexpr nstr (c_fname t) (c_translate t) c_same_fn (C11_facts RegOverwrite) m = Built (m', D)
+    /\ create_cache (c_fsem t) no_fsemN gen_sort_facts m = Val ch
+    /\ create_cache (fsem_gen cexpr c_eval D) no_fsemN gen_sort_facts m' = Val ch'
+    /\ get_fluxes (c_fsem t) no_fsemN m ch [(13, 2%Z)] 0 = Val [(14, 6%Z); (15, 7%Z)]
+    /\ get_fluxes (fsem_gen cexpr c_eval D) no_fsemN m' ch' [(13, 2%Z)] 0 = Val [(14, 5%Z); (15, 7%Z)]
+    /\ get_rhs (c_fsem t) no_fsemN m ch [(13, 2%Z)] 0 = Val [(13, 1%Z)]
+    /\ get_rhs (fsem_gen cexpr c_eval D) no_fsemN m' ch' [(13, 2%Z)] 0 = Val [(13, 2%Z)].
+Proof. exact same_name_refuted. Qed.
+Print Assumptions C11_same_name_refuted.
+
+(** REFUTED likewise across key kinds (finding C11-prefix-collision): parameter p := f_id(x) is stored
+    under init_f_id; a derived uses a function literally NAMED init_f_id (= -a) and overwrites it:
+    source p = 2, rebuilt p = -2. *)
+Theorem C11_prefix_collision_refuted :
+  exists (t : ftab) (m m' : model) (D : fdict cexpr) (ch ch' : cache),
+    UniqueIds m
+    /\ (forall s, In s (slots nstr (c_fname t) (C11_facts RegOverwrite) m) -> NoDup (sl_args s))
+    /\ roundtrip cexpr nstr (c_fname t) (c_translate t) c_same_fn (C11_facts RegOverwrite) m = Built (m', D)
+    /\ create_cache (c_fsem t) no_fsemN gen_sort_facts m = Val ch
+    /\ create_cache (fsem_gen cexpr c_eval D) no_fsemN gen_sort_facts m' = Val ch'
+    /\ c_all_par ch = [(12, 2%Z)] /\ c_all_par ch' = [(12, (-2)%Z)].
+Proof. exact prefix_collision_refuted. Qed.
+Print Assumptions C11_prefix_collision_refuted.
+
+(** REFUTED without ArgsDupFree (finding C11-duplicate-argument): d = f_sub(x, x).  Every function is
+    translatable, generation returns normally -- and the generated source is a SyntaxError. *)
+Theorem C11_duplicate_argument_refuted :
+  exists (t : ftab) (m : model) (c : code cexpr),
+    UniqueIds m
+    /\ (forall s, In s (slots nstr (c_fname t) (C11_facts RegOverwrite) m) ->
+                  c_translate t (sl_fn s) (sl_args s) <> None)
+    /\ generate cexpr nstr (c_fname t) (c_translate t) c_same_fn (C11_facts RegOverwrite) m = Some c
+    /\ exec_code cexpr c = ExecSyntax.
+Proof. exact duplicate_argument_refuted. Qed.
+Print Assumptions C11_duplicate_argument_refuted.
+
+(** ... for every generated code: a def that repeats a parameter (and was not renamed) never runs *)
+Theorem C11_duplicate_parameter_is_syntax_error :
+  forall (E : Type) (c : code E) (k : string) (body : E) (params : list name),
+    c_renamed c = false -> In (k, (body, params)) (c_defs c) -> ~ NoDup params ->
+    exec_code E c = ExecSyntax.
+Proof. exact duplicate_parameter_syntax_error. Qed.
+Print Assumptions C11_duplicate_parameter_is_syntax_error.
+
+(** the same three models under the repaired generator (regression witnesses): two defs where the
+    snapshot had one, the source's values are rebuilt *)
+Theorem C11_witnesses_rebuild_when_repaired :
+  (exists m' D ch ch',
+      roundtrip cexpr nstr (c_fname Tw) (c_translate Tw) c_same_fn (C11_facts RegFresh) m_same_name = Built (m', D)
+      /\ map fst D = ["rate"; "rate_1"]
+      /\ create_cache (c_fsem Tw) no_fsemN gen_sort_facts m_same_name = Val ch
+      /\ create_cache (fsem_gen cexpr c_eval D) no_fsemN gen_sort_facts m' = Val ch'
+      /\ get_fluxes (fsem_gen cexpr c_eval D) no_fsemN m' ch' [(13, 2%Z)] 0 = get_fluxes (c_fsem Tw) no_fsemN m_same_name ch [(13, 2%Z)] 0
+      /\ get_rhs (fsem_gen cexpr c_eval D) no_fsemN m' ch' [(13, 2%Z)] 0 = Val [(13, 1%Z)])
+  /\ (exists m' D ch',
+      roundtrip cexpr nstr (c_fname Tw) (c_translate Tw) c_same_fn (C11_facts RegFresh) m_prefix = Built (m', D)
+      /\ map fst D = ["init_f_id"; "init_f_id_1"]
+      /\ create_cache (fsem_gen cexpr c_eval D) no_fsemN gen_sort_facts m' = Val ch'
+      /\ c_all_par ch' = [(12, 2%Z)])
+  /\ (exists m' D ch',
+      roundtrip cexpr nstr (c_fname Tw) (c_translate Tw) c_same_fn (C11_facts RegFresh) m_dup = Built (m', D)
+      /\ create_cache (fsem_gen cexpr c_eval D) no_fsemN gen_sort_facts m' = Val ch'
+      /\ get_args (fsem_gen cexpr c_eval D) no_fsemN m' ch' [(12, 5%Z)] 0 = Val [(0, 0%Z); (12, 5%Z); (11, 3%Z); (13, 0%Z)]).
+Proof. exact witnesses_rebuild_when_repaired. Qed.
+Print Assumptions C11_witnesses_rebuild_when_repaired.
+
+(** "If a function cannot be translated, generation raises" -- and it raises ONLY then: the outcome
+    of the whole round trip is [GenRaises] exactly if some slot of the model holds a function that
+    fn_to_sympy refuses for the slot's arguments (whatever the facts) *)
+Theorem C11_untranslatable_raises :
+  forall (E : Type) (nstr : name -> string) (fname : fnid -> string)
+         (translate : fnid -> list name -> option E)
+         (same_fn : E * list name -> E * list name -> bool) (F : gen_facts) (m : model),
+    roundtrip E nstr fname translate same_fn F m = GenRaises <->
+    exists s, In s (slots nstr fname F m) /\ translate (sl_fn s) (sl_args s) = None.
+Proof. exact roundtrip_raises_iff. Qed.
+Print Assumptions C11_untranslatable_raises.
+
+(** the hypotheses of C11_roundtrip_partial are satisfiable by a non-trivial model: f_sub serves two
+    derived quantities with swapped arguments, a rate function, a computed coefficient *)
+Example C11_roundtrip_partial_nonvacuous :
+  (forall f margs e, c_translate Tw f margs = Some e ->
+      forall en vs, lookups margs en = Some vs -> c_eval e en = c_fsem Tw f vs)
+  /\ (forall f margs e, c_translate Tw f margs = Some e -> length margs = c_arity Tw f)
+  /\ (forall f vs, length vs <> c_arity Tw f -> c_fsem Tw f vs = None)
+  /\ UniqueIds m_reuse /\ m_sur m_reuse = [] /\ m_dat m_reuse = []
+  /\ (forall s, In s (slots nstr (c_fname Tw) (C11_facts RegOverwrite) m_reuse) -> NoDup (sl_args s))
+  /\ (forall s1 s2, In s1 (slots nstr (c_fname Tw) (C11_facts RegOverwrite) m_reuse) ->
+                    In s2 (slots nstr (c_fname Tw) (C11_facts RegOverwrite) m_reuse) ->
+                    sl_key s1 = sl_key s2 -> forall vs, c_fsem Tw (sl_fn s1) vs = c_fsem Tw (sl_fn s2) vs)
+  /\ map sl_key (slots nstr (c_fname Tw) (C11_facts RegOverwrite) m_reuse) = ["f_sub"; "f_sub"; "rate"; "n0016_stoich_f_id"]
+  /\ exists c, generate cexpr nstr (c_fname Tw) (c_translate Tw) c_same_fn (C11_facts RegOverwrite) m_reuse = Some c
+               /\ map fst (c_defs c) = ["f_sub"; "rate"; "n0016_stoich_f_id"].
+Proof. exact partial_nonvacuous. Qed.
+
+(** the hypotheses of C11_roundtrip are satisfiable by a model with a same-name clash, a repeated
+    argument and a reused function: four defs are emitted *)
+Example C11_roundtrip_nonvacuous :
+  (forall f margs e, c_translate Tw f margs = Some e ->
+      forall en vs, lookups margs en = Some vs -> c_eval e en = c_fsem Tw f vs)
+  /\ (forall q p, c_same_fn q p = true ->
+        forall vs, defsem cexpr c_eval (fst q) (snd q) vs = defsem cexpr c_eval (fst p) (snd p) vs)
+  /\ UniqueIds m_all /\ m_sur m_all = [] /\ m_dat m_all = []
+  /\ exists c, generate cexpr nstr (c_fname Tw) (c_translate Tw) c_same_fn (C11_facts RegFresh) m_all = Some c
+               /\ map fst (c_defs c) = ["f_sub"; "f_sub_1"; "rate"; "rate_1"].
+Proof. exact full_nonvacuous. Qed.
